@@ -1,6 +1,7 @@
 package p2p
 
 import (
+	"bytes"
 	"crypto/cipher"
 	"encoding/binary"
 	"io"
@@ -88,6 +89,11 @@ func NewHandshake(conn net.Conn, meta *lib.PeerMeta, privateKey crypto.PrivateKe
 	}, handshakeTimeout)
 	if err != nil {
 		return nil, ErrFailedSignatureSwap(err)
+	}
+	// a peer presenting OUR OWN identity proves nothing: both sides sign the same challenge, so our own
+	// signature and signed meta can simply be sent back to us (reflection)
+	if bytes.Equal(peerSig.PublicKey, privateKey.PublicKey().Bytes()) {
+		return nil, ErrFailedChallenge()
 	}
 	peerPublicKey, err := crypto.NewPublicKeyFromBytes(peerSig.PublicKey)
 	if err != nil {
